@@ -468,8 +468,13 @@ func (m *M) flushAsserts() {
 		}
 		neg := "(not (and " + strings.Join(parts, " ") + "))"
 		m.st.verdictQueries++
-		r := m.check(neg)
-		m.crossCheck(neg, r)
+		// no fallback and a short time limit for the batch: if it is not decided quickly the assertions are decided one by one
+		m.sol.setTimeout(1500)
+		r := m.sol.checkRes(neg)
+		m.sol.setTimeout(queryTimeoutMs)
+		if r == resUnsat {
+			m.crossCheck(neg, r)
+		}
 		if r == resUnsat {
 			m.st.verdictUnsat++
 			for range p {
